@@ -132,7 +132,7 @@ def wl_zero_fingerprint(ctx, rng, case):
     """keys whose raw fingerprint is 0 (the empty-slot marker of the export format, remapped by the library) must survive kicks,
     expansions and reloads like any other key.  How 0 is remapped is the library's choice, so these histories contain no removals
     (an alias with another key's fingerprint can then only make keys MORE present, never absent)."""
-    cfg = ck.gen_cfg(rng)
+    cfg = ck.gen_cfg(rng, allow_rate=False)
     cfg.finger_size = 1
     cfg.capacity = rng.choice([2, 3, 4, 5, 8])
     cfg.bucket_size = rng.choice([1, 2, 2])
